@@ -295,6 +295,12 @@ Theorem C01_lookback_table :
 Proof. exact real_lookbacks. Qed.
 Print Assumptions C01_lookback_table.
 
+(* the caches on the vote verification path (the harness' large look-back sets exceed the largest) *)
+Theorem C01_cache_inventory :
+  length go_cache_sizes = 3%nat /\ forallb (fun c => 0 <? c) go_cache_sizes = true /\ 0 < max_cache_size.
+Proof. exact real_cache_sizes. Qed.
+Print Assumptions C01_cache_inventory.
+
 Theorem C01_constants :
   go_cht_frequency = cht_frequency /\ go_steps = (step_proposal, step_precommit, step_certificate).
 Proof. exact real_constants. Qed.
